@@ -59,6 +59,11 @@ def run(tier, seed):
         us = "(" + " * ".join(parts) + ")"
         srcs.append(us)
         srcs.append("(%s * %s)" % (rng.choice(["5", "2.5", "Decimal('1.25')", "-3", "0"]), us))
+    for i, u in enumerate(["Meter", "(Kilo*Meter)", "Hertz", "(Meter / Second)"]):
+        for first, second in (("%d", "%d.0"), ("%d.0", "%d"), ("%d", "Decimal('%d')"), ("Decimal('%d')", "%d.0")):
+            n_ = 40 + 7 * i + len(srcs) % 5
+            srcs.append("(%s * %s)" % (first % n_, u))
+            srcs.append("(%s * %s)" % (second % n_, u))
     for src in srcs:
         evals += 1
         distinct.add(src)
